@@ -14,6 +14,7 @@ polynomial) and the construction value / the input a stream value of coefficient
               reported
 """
 import copy
+from fractions import Fraction
 
 from engine import RuleResult, Broken
 from model import Model, T_METHOD
@@ -699,6 +700,192 @@ def rule_L04_recurrences(ctx):
             res.sample({'kind': short, 'stages': nstage, 'verdict': 'next() is the documented recurrence for every length; new() starts every stage at the first value'})
     res.floor('exponential kinds decided', 7, done + len({v.key.split('|')[0] for v in res.violations}))
     return res
+
+
+# ---------------------------------------------------------------------------------------------------------------
+# L05 (C02): single-window linear methods equal their from-scratch formula (moment invariants of the window)
+# ---------------------------------------------------------------------------------------------------------------
+# The window of the last n inputs is abstracted by two functionals: M0 = sum of its elements, M1 = sum of age * element (newest has age 0).
+# A push of x that evicts p maps (M0, M1) to (M0 + x - p, M1 + M0 - n p). Documented value of each method after the step, as
+# (coefficient of M0', of M1', of the input x, of the evicted element p); n is the length. The table is the text of property C02.
+def _doc_sma(n):
+    return (ONE.div(n), ZERO, ZERO, ZERO)
+
+
+def _doc_wma(n):
+    s_ = n * (n + ONE) * RF.const(Fraction(1, 2))
+    return (n.div(s_), -ONE.div(s_), ZERO, ZERO)
+
+
+def _doc_linreg(n):
+    # least-squares line through (i, y_i), i = 0 (oldest) .. n-1 (newest), evaluated at the newest point
+    a0 = ONE.div(n) + RF.const(3) * (n - ONE).div(n * (n + ONE))
+    a1 = -RF.const(6).div(n * (n + ONE))
+    return (a0, a1, ZERO, ZERO)
+
+
+FROM_SCRATCH = {
+    'SMA': _doc_sma,
+    'WMA': _doc_wma,
+    'LinReg': _doc_linreg,
+    'Momentum': lambda n: (ZERO, ZERO, ONE, -ONE),
+    'Derivative': lambda n: (ZERO, ZERO, ONE.div(n), -ONE.div(n)),
+    'Past': lambda n: (ZERO, ZERO, ZERO, ONE),
+    'Integral': lambda n: (ONE, ZERO, ZERO, ZERO),
+}
+
+
+def rule_L05_from_scratch(ctx):
+    m = Model(ctx.facts())
+    f = m.f
+    res = RuleResult('L05', 'SMA, WMA, LinReg, Momentum, Derivative, Past, windowed Integral: every accumulator is, inductively, a fixed combination of the window '
+                            'moments (sum, age-weighted sum), and the returned value is the documented from-scratch formula of the last n inputs, for every length')
+    done = 0
+    for impl in m.method_impls:
+        adt = m.adt_path_of_impl(impl)
+        short = adt.rsplit('::', 1)[-1] if adt else None
+        if short not in FROM_SCRATCH:
+            continue
+        nb = m.body(m.impl_fn_path(impl, 'new'))
+        xb = m.body(m.impl_fn_path(impl, 'next'))
+        pmax = {'u8': 255, 'u16': 65535}.get(nb.local_ty(1), 65535)
+        ok = True
+        for r in range(MOD):
+            wlin.PARAM_RANGE['kmin'] = 0 if r else 1
+            wlin.PARAM_RANGE['kmax'] = (pmax - r) // MOD
+            n_rf = RF.const(MOD) * RF.sym('k') + RF.const(r)
+            try:
+                def mk_new():
+                    box = {'v': Aff(True, ONE, ZERO, False, {'first value': ONE})}
+                    return [_param_value(None, r), Ref(box, 'v')]
+                for crun, cargs, cres in explore(f, nb, mk_new):
+                    if not (isinstance(cres, Obj) and cres.variant == 'Ok'):
+                        continue
+                    sub0, infeasible = _apply_assumptions(crun.assume)
+                    if infeasible is True:
+                        continue
+                    s0 = cres.f.get('0')
+                    if not isinstance(s0, Obj):
+                        raise Abstain('constructed value is not tracked')
+                    wins = [(p, x) for p, x in leaves_obj(s0) if isinstance(x, Obj) and x.kind == wlin.WINDOW]
+                    if len(wins) != 1:
+                        raise Abstain('%d windows' % len(wins))
+                    wpath, win = wins[0]
+                    cap = win.f.get('cap')
+                    el = win.f.get('elem')
+                    key0 = '%s|n=%dk+%d' % (short, MOD, r)
+                    if not (isinstance(cap, Aff) and not cap.lin and isinstance(el, Aff) and el.co is not None and set(el.co) == {'first value'} and el.co['first value'].eq(ONE)):
+                        raise Abstain('window is not filled with the first value')
+
+                    def mk_next(s0=s0):
+                        st = copy.deepcopy(s0)
+                        _label(st)
+                        box = {'s': st, 'x': Aff(True, ONE, ZERO, False, {'input': ONE})}
+                        return [Ref(box, 's'), Ref(box, 'x')]
+                    for run, args, out in explore(f, xb, mk_next, label_popped=True):
+                        sub, infeasible = _apply_assumptions(crun.assume + run.assume)
+                        if infeasible is True:
+                            continue
+                        assume = crun.assume + run.assume
+                        # the windowless configuration of Integral is the documented cumulative mode, not a window method
+                        capv = _sub(cap.c, sub)
+                        if capv.is_zero():
+                            continue
+                        if run.data_dependent:
+                            raise Abstain('data-dependent path')
+                        if len(run.pushed) != 1 or not isinstance(run.pushed[0], Aff) or run.pushed[0].co is None or \
+                                {a for a, c in run.pushed[0].co.items() if not c.is_zero()} != {'input'} or not run.pushed[0].co['input'].eq(ONE):
+                            raise Abstain('the window is not pushed exactly the input once')
+                        n_ = capv
+                        st1 = args[0].get()
+                        fields = {'/'.join(p): x for p, x in leaves(st1) if isinstance(x, Aff) and x.lin and not '/'.join(p).startswith('/'.join(wpath))}
+                        old_names = {'/'.join(p) for p, x in leaves(s0) if isinstance(x, Aff) and x.lin and not '/'.join(p).startswith('/'.join(wpath))}
+                        if set(fields) != old_names or any(x.co is None for x in fields.values()) or not isinstance(out, Aff) or out.co is None:
+                            raise Abstain('state after the step is not tracked coefficient by coefficient')
+                        # invariant of each accumulator: F = a*M0 + b*M1, read off the coefficients of the input and of the evicted element
+                        inv = {}
+                        for nm, x in fields.items():
+                            a_ = _sub(x.co.get('input', ZERO), sub)
+                            e_ = _sub(x.co.get('popped', ZERO), sub)
+                            b_ = -(e_ + a_).div(n_)
+                            inv[nm] = (a_, b_)
+                        for nm, x in fields.items():
+                            res.inst('%s|%s' % (key0, nm))
+                            a_, b_ = inv[nm]
+                            m0 = ZERO
+                            m1 = ZERO
+                            for nm2 in fields:
+                                c = _sub(x.co.get(nm2, ZERO), sub)
+                                m0 = m0 + c * inv[nm2][0]
+                                m1 = m1 + c * inv[nm2][1]
+                            want0, want1 = a_ + b_, b_
+                            bad = None
+                            for got, want, what in ((m0, want0, 'window sum'), (m1, want1, 'age-weighted window sum')):
+                                if got.eq(want):
+                                    continue
+                                cr = _compare_over_range(got, want, ZERO, ZERO, sub, assume)
+                                if cr is True:
+                                    continue
+                                if cr is None and not (wlin.p_syms(got.n) | wlin.p_syms(got.d) | wlin.p_syms(want.n) | wlin.p_syms(want.d)) <= {'k'}:
+                                    raise Abstain('%s: invariant not decided' % nm)
+                                bad = (what, got, want)
+                            # constructor: constant prehistory v gives M0 = n v, M1 = v n (n-1) / 2
+                            init = None
+                            for p_, x0 in leaves(s0):
+                                if '/'.join(p_) == nm:
+                                    init = x0
+                            w0 = a_ * n_ + b_ * n_ * (n_ - ONE) * RF.const(Fraction(1, 2))
+                            if bad is None and isinstance(init, Aff) and init.co is not None:
+                                got = _sub(init.co.get('first value', ZERO), sub)
+                                if not got.eq(w0) and _compare_over_range(got, w0, ZERO, ZERO, sub, assume) is not True:
+                                    bad = ('value the constructor gives it for a window full of the first value', got, w0)
+                            if bad:
+                                res.violate('%s|%s|invariant' % (short, nm), '%s: the accumulator `%s` does not stay a fixed combination of the window moments: %s is %s, the step needs %s' % (
+                                    short, nm, bad[0], bad[1], bad[2]), xb.file, xb.line)
+                                ok = False
+                        # output in terms of (M0', M1', x, p): substitute the invariants of the NEW accumulators
+                        res.inst(key0 + '|output')
+                        # out.co is over the OLD atoms: old F = a M0 + b M1, and M0 = M0' - x + p, M1 = M1' - M0 + n p = M1' - M0' + x - p + n p
+                        cM0 = cM1 = ZERO
+                        cx = _sub(out.co.get('input', ZERO), sub)
+                        cp = _sub(out.co.get('popped', ZERO), sub)
+                        for nm2 in fields:
+                            c = _sub(out.co.get(nm2, ZERO), sub)
+                            cM0 = cM0 + c * inv[nm2][0]
+                            cM1 = cM1 + c * inv[nm2][1]
+                        # in new moments
+                        o0 = cM0 - cM1
+                        o1 = cM1
+                        ox = cx - cM0 + cM1
+                        op_ = cp + cM0 - cM1 + cM1 * n_
+                        doc = FROM_SCRATCH[short](n_)
+                        for got, want, what in zip((o0, o1, ox, op_), doc, ('the window sum', 'the age-weighted window sum', 'the input', 'the evicted element')):
+                            if got.eq(want):
+                                continue
+                            cr = _compare_over_range(got, want, ZERO, ZERO, sub, assume)
+                            if cr is True:
+                                continue
+                            if cr is None and not (wlin.p_syms(got.n) | wlin.p_syms(got.d) | wlin.p_syms(want.n) | wlin.p_syms(want.d)) <= {'k'}:
+                                raise Abstain('output: coefficient of %s not decided' % what)
+                            res.violate('%s|output|%s' % (short, what.replace(' ', '-')), '%s::next returns a value whose coefficient of %s is %s; the documented from-scratch formula gives %s' % (
+                                short, what, got, want), xb.file, xb.line)
+                            ok = False
+            except Abstain as ex:
+                res.undecided.append('%s: %s' % (short, ex))
+                ok = False
+        if ok:
+            done += 1
+            res.sample({'method': short, 'verdict': 'accumulators are inductive combinations of the window moments; output = documented formula of the last n inputs, every length'})
+    res.floor('window methods decided', 6, done + len({v.key.split('|')[0] for v in res.violations}))
+    return res
+
+
+def leaves_obj(v, prefix=()):
+    """(path, Obj) for every nested object"""
+    if isinstance(v, Obj):
+        yield prefix, v
+        for k in sorted(v.f):
+            yield from leaves_obj(v.f[k], prefix + (k,))
 
 
 def rule_L03_dimensions(ctx):
